@@ -247,7 +247,6 @@ func callsLean(cs []callFact) string {
 	return "[" + strings.Join(p, ",\n   ") + "]"
 }
 
-
 // cases of every `switch <x>.Type()` / `switch newType` statement of a function: (label, body text)
 type caseFact struct{ label, body string }
 
@@ -289,7 +288,6 @@ func casesLean(name string, rows [][3]string) string {
 	sb.WriteString("]\n")
 	return sb.String()
 }
-
 
 // package-level variables (shared by every instance and every goroutine) and every statement that writes
 // one of them — an assignment, ++/--, an element or field assignment rooted at it, or a call of a mutating
